@@ -89,6 +89,12 @@ def to_script(rng, kinds, seq, prefix):
             steps.append({"a": "wait", "ms": 4})
         elif a == "unbindl":
             steps.append({"a": "unbindl", "s": 1, "bare": rng.random() < 0.5})     # (bare: the stream is named by its SSRC only)
+            if rng.random() < 0.5:     # writes that were in flight when the stream was removed arrive through its old writer
+                for _ in range(2):
+                    st["w"] += 1
+                    st["id"] += 1
+                    steps.append({"a": "wrtp", "s": 1, "w": st["w"], "id": st["id"], "len": 20, "shape": 0, "fail": False, "stale": True})
+                steps.append({"a": "wait", "ms": 6})
             steps.append({"a": "wait", "ms": 6})
         elif a == "unbindm":
             steps.append({"a": "unbindm", "s": 2, "bare": rng.random() < 0.5})
